@@ -133,7 +133,7 @@ OSettled == /\ Ev("settled")
             /\ UNCHANGED <<hdr, own, infl, seen, pend, outst, age, dirty, viol>>
 
 OOther == /\ l <= Len(Trace)
-          /\ Trace[l].e \in {"cmd", "skip", "tick", "bdone", "failed", "end"}
+          /\ Trace[l].e \in {"cmd", "skip", "tick", "bdone", "failed", "end", "drift"}
           /\ l' = l + 1
           /\ UNCHANGED <<hdr, own, infl, seen, pend, outst, age, dirty, final, unsettled, viol>>
 
